@@ -55,3 +55,45 @@ def slice_journeys(trace, out, keep):
             if on:
                 g.write(line)
     return n
+
+
+def model(c, workers=4):
+    """Exhaustive honest model over the topology families the driver defines (T1-T3)."""
+    drv = c.build("dp")
+    topos = c.scratch + "/topos.ndjson"
+    c.run_driver(drv, ["-mode", "topo", "-topos", "T1,T2,T3", "-out", topos])
+    r = c.mc("Dataplane", "DataplaneMC.%s.cfg" % c.tier, extra_files=[(topos, "topos.ndjson")],
+             workers=workers, timeout=1500)
+    if r.distinct < 1000:
+        raise vlib.Infra("Dataplane model explored only %d states: vacuous" % r.distinct)
+    return r
+
+
+def coverage(c, trace, nontrivial, rule, sample_events=8):
+    ntr = nev = 0
+    shapes = set()
+    skipped = 0
+    with open(trace) as f:
+        for line in f:
+            if '"ev":"skip"' in line:
+                skipped += 1
+    for r, evs in journeys(trace):
+        ntr += 1
+        nev += sum(1 for e in evs if e["ev"] in ("hop", "scmp"))
+        if nontrivial(r, evs):
+            shapes.add((r["topo"],) + shape(r))
+    c.cov["traces_validated_against_impl"] += ntr
+    c.cov["evaluations"] += nev
+    c.cov["distinct_nontrivial"] += len(shapes)
+    c.cov["rule"] = rule
+    if skipped:
+        c.notes.append("%d combined paths could not be serialized by slayers (more than 64 hop "
+                       "fields) and were skipped" % skipped)
+    if len(c.cov["samples"]) < 3:
+        for r, evs in journeys(trace):
+            c.sample({"journey": {k: r[k] for k in ("id", "topo", "src", "dst", "ifs", "mode", "pt")},
+                      "events": [{k: e.get(k) for k in ("ev", "j", "as", "r", "scope", "inif", "disp",
+                                                        "egress", "out", "dst")}
+                                 for e in evs[:sample_events]]})
+            if len(c.cov["samples"]) >= 3:
+                break
